@@ -62,7 +62,8 @@ func c19r1(c *Ctx, id string) {
 	}
 	// resolve the index of the ctx.Done case from the select statement itself
 	// (the wait may live in a helper the round calls; the evaluator inlines it)
-	doneIdx, otherIdx := -1, -1
+	doneIdx := -1
+	var others []int // every other case of the wait: whichever of them wakes the round, the count must go on
 	for f := range w.syncCallees(fn, 2, true) {
 		allInstrs(f, func(in ssa.Instruction) {
 			if s, ok := in.(*ssa.Select); ok {
@@ -70,21 +71,22 @@ func c19r1(c *Ctx, id string) {
 					if strings.HasSuffix(w.Origin(stt.Chan), ".Done)()") {
 						doneIdx = i
 					} else {
-						otherIdx = i
+						others = append(others, i)
 					}
 				}
 			}
 		})
 	}
-	if doneIdx < 0 || otherIdx < 0 {
+	if doneIdx < 0 || len(others) == 0 {
 		c.Fail(id, fname(fn), fn.Pos(), "the retry wait is not a select over ctx.Done() and a timer")
 		return
 	}
+	h.Choices["wake"] = len(others)
 	h.SelectChoice = func(st *State, name string, nth int) int {
 		if st.C("cancelAt") == nth+1 {
 			return doneIdx
 		}
-		return otherIdx
+		return others[st.C("wake")]
 	}
 	_ = selName
 	c.oae(id, fname(fn), fn.Pos(), h, func(st *State, out *Outcome) string {
